@@ -152,7 +152,7 @@ func cmdCheck(args []string) int {
 	os.MkdirAll(hintDir, 0o755)
 	hintsTried, hintsFailed := 0, 0
 	HintSolver = func(obls []*Obligation) {
-		(&Solver{Dir: hintDir, Timeout: 10, Par: solverPar(), Prelude: e.Prelude(), QFPrelude: e.QFPrelude(), Eng: e}).SolveAll(obls)
+		(&Solver{Dir: hintDir, Timeout: 10, Par: solverPar(), Prelude: e.Prelude(), QFPrelude: e.QFPrelude(), Eng: e, noRetry: true}).SolveAll(obls)
 	}
 	var all []*Obligation
 	var fnEv []fnEvidence
